@@ -1,6 +1,10 @@
 use crate::{
-    expression::ExpressionEvaluator, program::Program, symbol::Symbol, value::Value, Interpreter,
-    InterpreterError, InterpreterOutput, SyntaxError, Token, TracedInterpreterError,
+    expression::ExpressionEvaluator,
+    program::{Program, NESTING_LIMIT},
+    symbol::Symbol,
+    value::Value,
+    Interpreter, InterpreterError, InterpreterOutput, OutOfMemoryError, SyntaxError, Token,
+    TracedInterpreterError,
 };
 
 struct LValue {
@@ -10,11 +14,15 @@ struct LValue {
 
 pub struct StatementEvaluator<'a> {
     interpreter: &'a mut Interpreter,
+    depth: usize,
 }
 
 impl<'a> StatementEvaluator<'a> {
     pub fn new(interpreter: &'a mut Interpreter) -> Self {
-        StatementEvaluator { interpreter }
+        StatementEvaluator {
+            interpreter,
+            depth: 0,
+        }
     }
 
     pub fn evaluate_statement(&mut self) -> Result<(), TracedInterpreterError> {
@@ -376,7 +384,14 @@ impl<'a> StatementEvaluator<'a> {
         if let Some(Token::NumericLiteral(_)) = self.program().peek_next_token() {
             self.evaluate_goto_statement()
         } else {
-            self.evaluate_statement()
+            // THEN and ELSE clauses can nest (IF .. THEN IF .. THEN ..).
+            if self.depth == NESTING_LIMIT {
+                return Err(OutOfMemoryError::StackOverflow.into());
+            }
+            self.depth += 1;
+            let result = self.evaluate_statement();
+            self.depth -= 1;
+            result
         }
     }
 }
